@@ -160,10 +160,15 @@ Plan gen_perturb_plan(uint64_t seed) {
   size_t gi = (size_t)r.below(pool.good.size());
   const auto &ins = pool.inputs[gi];
   std::vector<int> in = ins[(size_t)r.below(ins.size())];
+  if (pool.good[gi].tag.compare(0, 4, "fam-") == 0 && r.chance(2, 3)) { // longer sentences of the idiom families
+    in = gen_sentence(r, pool.good[gi], r.range(10, 90));
+    if (r.chance(1, 5) && !in.empty()) in.erase(in.begin() + (long)r.below(in.size()));
+  }
   // repeat the input to make it longer where the grammar allows it (it is simply another input otherwise)
   if (r.chance(1, 3)) { std::vector<int> rep; int k = r.range(2, 4); for (int i = 0; i < k; i++) rep.insert(rep.end(), in.begin(), in.end()); if (rep.size() <= 40) in = rep; }
   int one = r.chance(2, 3) ? 1 : 0, cost = r.chance(1, 4) ? 1 : 0;
   if ((!one || cost) && in.size() > 10) in.resize(10);
+  if (in.size() > 90) in.resize(90);
   return build(r, seed, pool.good[gi], in, one, cost, r.chance(5, 6) ? 1 : 0, r.chance(2, 3) ? 3 : r.range(0, 4), false);
 }
 
